@@ -50,6 +50,7 @@ func genC02(seed uint64, run int, tier string) *Plan {
 	r := newRNG(seed, 2)
 	g := newGen(r)
 	g.failing = 45
+	g.wide = 15
 	g.colls = []string{"c0"}
 	g.ids = 3 + r.IntN(3)
 	p := &Plan{Prop: "C02", Seed: seed, Run: run, Cfg: seqCfg(r)}
